@@ -82,6 +82,11 @@ META = {
                  'deleteMany / deleteBy are modelled per id (a destroy touches only rows of its own id)',
                  'the referencing table (plain class R with cascade=False / null / True keys to the levels) is not in the '
                  'model: which levels are restricted is read from R by raw SELECT and given to the model as data',
+                 'fetchmany() batching of InheritableIteration (results spanning several batches are produced by setting the '
+                 'class attribute InheritableIteration.defaultArraySize to 1..3 in a third of the histories; the 10000-row '
+                 'default is not reached) and the per-registry scan of InheritableSelectResults (all hierarchies of a run '
+                 'share ONE class registry and are declared one after the other, each after selects of the earlier ones) '
+                 'are exercised by the harness, not modelled',
                  'the per-level value caches of the main connection and Transaction.commit (expiry of every level of every '
                  'chain fetched in the transaction: C15_commit_after_write_and_destroy_coherent); what the real commit '
                  'expires is checked by the oracle only: instances loaded on the main connection before a transaction '
@@ -125,6 +130,9 @@ PYCMP = {'eq': lambda x, y: x == y, 'ne': lambda x, y: x != y, 'lt': lambda x, y
 
 # the three-level hierarchy with sibling subclasses of the property statement:
 #   K0(2 cols) <- K1(1) <- K3(1), K4(0 cols, inheritable) ; K0 <- K2(1) ; K1 <- K5 (0 cols, not inheritable)
+DEFAULT_BATCH = 10000
+# a hierarchy with alternateID columns on the root (v0k1) and on the middle class (v1k1)
+ALT_SHAPE = [(None, 2, 1, 1), (0, 2, 1, 1), (0, 1, 1, 0), (1, 1, 1, 0), (1, 0, 1, 0), (1, 1, 0, 0)]
 BASE_SHAPE = [(None, 2, 1), (0, 1, 1), (0, 1, 1), (1, 1, 1), (1, 0, 1), (1, 0, 0)]
 
 _hiers = {}
@@ -174,15 +182,21 @@ class Hier(object):
         self.tx = None
         self.keep = []   # transaction-side instances, held until the transaction ends
         _counter[0] += 1
-        self.reg = 'c15reg%d' % _counter[0]
+        hid = _counter[0]
+        # ONE class registry for all hierarchies of the run, each declared when first needed: every
+        # hierarchy but the first is declared AFTER inheritable selects have already run in the registry
+        self.reg = 'c15shared'
         self.classes = []
         self.names = []
-        for c, (par, ncols, inh) in enumerate(shape):
-            name = 'K%d' % c
+        for c, (par, ncols, inh, alt) in enumerate(shape):
+            name = 'H%dK%d' % (hid, c)
             ns = {'_connection': self.conn,
                   'sqlmeta': type('sqlmeta', (), {'registry': self.reg})}
             for k in range(ncols):
-                ns['v%dk%d' % (c, k)] = IntCol(default=0)
+                if alt and k == ncols - 1:
+                    ns['v%dk%d' % (c, k)] = IntCol(alternateID=True, default=None)
+                else:
+                    ns['v%dk%d' % (c, k)] = IntCol(default=0)
             if not inh:
                 ns['_inheritable'] = False
             base = InheritableSQLObject if par is None else self.classes[par]
@@ -191,15 +205,15 @@ class Hier(object):
             self.names.append(name)
         ns = {'_connection': self.conn, 'sqlmeta': type('sqlmeta', (), {'registry': self.reg})}
         self.refcols = []
-        for c, (par, ncols, inh) in enumerate(shape):
+        for c, (par, ncols, inh, alt) in enumerate(shape):
             # (the generators put cascade=False references on root-level rows only; the lower-level
             # columns serve the C06 witness)
-            ns['r%d' % c] = ForeignKey('K%d' % c, cascade=False, default=None)
+            ns['r%d' % c] = ForeignKey(self.names[c], cascade=False, default=None)
             self.refcols.append(('r', c))
-            ns['n%d' % c] = ForeignKey('K%d' % c, cascade='null', default=None)
-            ns['c%d' % c] = ForeignKey('K%d' % c, cascade=True, default=None)
+            ns['n%d' % c] = ForeignKey(self.names[c], cascade='null', default=None)
+            ns['c%d' % c] = ForeignKey(self.names[c], cascade=True, default=None)
             self.refcols += [('n', c), ('c', c)]
-        self.R = type('R', (SQLObject,), ns)
+        self.R = type('H%dR' % hid, (SQLObject,), ns)
         for cls in self.classes + [self.R]:
             cls.createTable()
             cls.createTable(connection=self.conn2)
@@ -286,6 +300,15 @@ def scratch_dir():
 
 def hier_for(shape, filedb=False):
     key = json.dumps([shape, filedb])
+    if not _hiers:
+        # primer: a small hierarchy is declared and selected through BEFORE any hierarchy under test is
+        # declared in the shared registry, so that every tested hierarchy (also in a replay, which
+        # runs one case in a fresh process) is a late-declared one
+        primer = Hier([(None, 1, 1, 0), (0, 1, 1, 0)])
+        _hiers['primer'] = primer
+        primer.classes[1](v0k0=1)
+        list(primer.classes[1].select(primer.classes[1].q.v0k0 == 1))
+        list(primer.classes[0].select())
     if key not in _hiers:
         _hiers[key] = Hier(shape, filedb)
     return _hiers[key]
@@ -322,6 +345,10 @@ def op_line(op):
         return 'select %d %s' % (op[1], fmt_filter(op[2]))
     if t == 'selectby':
         return 'selectby %d' % op[1] + ''.join(' %d:%d:%d' % (a, k, v) for a, k, v in op[2])
+    if t == 'byalt':
+        return 'byalt %d %d %d %d' % tuple(op[1:5])
+    if t == 'batch':
+        return 'batch %d' % op[1]
     if t == 'conn':
         return 'conn %d' % op[1]
     if t in ('begin', 'rollback', 'commit'):
@@ -336,7 +363,7 @@ def op_line(op):
 
 
 def tree_line(shape):
-    return 'tree %d' % len(shape) + ''.join(' %s %d %d' % ('-' if p is None else p, k, h) for p, k, h in shape)
+    return 'tree %d' % len(shape) + ''.join(' %s %d %d' % ('-' if x[0] is None else x[0], x[1], x[2]) for x in shape)
 
 
 def touched(op):
@@ -464,6 +491,12 @@ def run_op(h, op, k=0):
                 kw['connection'] = cx
             h.R(**kw)
             return 'ok'
+        if t == 'byalt':
+            name = 'v%dk%d' % (op[2], op[3])
+            o = getattr(h.classes[op[1]], 'by' + name[0].upper() + name[1:])(op[4], connection=cx)
+            if h.tx is not None:
+                h.keep.append(o)
+            return 'ok %d' % h.idx.get(type(o).__name__, -1)
         if t == 'get':
             o = h.classes[op[1]].get(op[2], connection=cx)
             if h.tx is not None:
@@ -546,7 +579,7 @@ def run_op(h, op, k=0):
 def check_invariant(shape, raw):
     """the no-orphan invariant on raw table dumps; returns a list of (kind, text)"""
     bad = []
-    for c, (par, ncols, inh) in enumerate(shape):
+    for c, (par, ncols, inh, alt) in enumerate(shape):
         for i, (child, vals) in raw[c].items():
             if par is not None:
                 prow = raw[par].get(i)
@@ -704,6 +737,18 @@ def _oracle_step(shape, op, ans, before, after):
                     bad.append(('destroy-touches-other-tree', 'destroying changed table K%d' % c))
         elif before != after:
             bad.append(('failed-destroy-changed-rows', 'destroy answered %s and changed rows' % ans))
+    elif t == 'byalt':
+        if before != after:
+            bad.append(('read-changes-rows', 'by<Col>() changed the tables'))
+        e, a, k, v = op[1:5]
+        owners = [i for i, row in after[a].items() if row[1][k] == v]
+        want = 'NotFound'
+        if owners and owners[0] in after[e]:
+            want = 'ok %s' % (most_derived(shape, after, root_of(shape, e), owners[0]),)
+        if ans != want:
+            kind = 'byalt-foreign-kind' if ans.startswith('ok') and want == 'NotFound' else 'byalt-result'
+            bad.append((kind, 'K%d.byV%dk%d(%d) answered %s; the value belongs to id %r, rows of that id in K%d: %s; expected %s'
+                        % (e, a, k, v, ans, owners[:1], e, bool(owners and owners[0] in after[e]), want)))
     elif t in ('deletemany', 'deleteby'):
         c = op[1]
         r = root_of(shape, c)
@@ -859,10 +904,17 @@ def run_case(shape, ops, cold=False, view_extra=None):
     inv0 = check_invariant(shape, state[0])
     allocated = {0: set(), 1: set()}
     handles = {}
+    from sqlobject.inheritance import iteration as _iteration
+    _iteration.InheritableIteration.defaultArraySize = DEFAULT_BATCH
     for step, op in enumerate(ops):
         if cold:
             h.clear_caches()
         t = op[0]
+        if t == 'batch':
+            # `InheritableIteration.defaultArraySize` (class attribute, 10000): rows per fetchmany()
+            # batch of a select through an inheritable class; small values make results span batches
+            _iteration.InheritableIteration.defaultArraySize = op[1]
+            continue
         if t == 'conn':
             if h.tx is not None:
                 continue
@@ -956,12 +1008,13 @@ def run_case(shape, ops, cold=False, view_extra=None):
             fails.append((len(ops), 'read-changes-rows', 'fetching through every level changed the tables'))
     for kind, text in inv0:
         fails.append((-1, kind, text))
+    _iteration.InheritableIteration.defaultArraySize = DEFAULT_BATCH
     return lines, impl, fails
 
 
 # ----------------------------------------------------------------------------- generators
 
-def gen_shape(rng):
+def gen_shape(rng, alt_ok=False):
     n = rng.randint(2, 7)
     shape = []
     depth = []
@@ -980,7 +1033,11 @@ def gen_shape(rng):
     for c in range(n):
         if shape[c][0] is not None and not any(s[0] == c for s in shape) and rng.random() < 0.3:
             shape[c][2] = 0
-    return [tuple(x) if x[0] is not None else (None, x[1], x[2]) for x in shape]
+    out = []
+    for c in range(n):
+        alt = 1 if (shape[c][1] >= 1 and alt_ok and rng.random() < 0.4) else 0
+        out.append((shape[c][0], shape[c][1], shape[c][2], alt))
+    return out
 
 
 def rand_val(rng):
@@ -1020,6 +1077,15 @@ def gen_history(rng, shape, nops, flavour='plain'):
     saved = None
     refs = flavour == 'refs' or (flavour in ('two', 'tx') and rng.random() < 0.4)
     ops = []
+
+    def is_alt(a, k):
+        return bool(shape[a][3]) and k == shape[a][1] - 1
+    alt_cols = [(a, shape[a][1] - 1) for a in range(n) if shape[a][3]]
+    alt_next = [50]
+    alt_vals = []
+    if rng.random() < 0.35:
+        # small fetchmany() batches: the results of the selects span several batches
+        ops.append(['batch', rng.choice([1, 2, 3])])
     for step in range(nops):
         S = sims[cur]
         live, dead, hi, restricted = S['live'], S['dead'], S['hi'], S['restricted']  # (root, id) -> class, ...
@@ -1050,6 +1116,15 @@ def gen_history(rng, shape, nops, flavour='plain'):
             else:
                 ops.append(['addref', 'null' if q < 0.7 else 'cascade', rng.choice(anc(shape, m)), i])
             continue
+        if alt_cols and rng.random() < 0.12:
+            # E.by<Col>(v) through the declaring class or any subclass, with a value of an object of
+            # the same kind, of a sibling kind, of a bare ancestor, of a destroyed object, or of none
+            a, k = rng.choice(alt_cols)
+            e = rng.choice([c for c in range(n) if a in anc(shape, c)])
+            mine = [v for (a2, k2, v) in alt_vals if (a2, k2) == (a, k)]
+            v = rng.choice(mine) if mine and rng.random() < 0.9 else 49
+            ops.append(['byalt', e, a, k, v])
+            continue
         r = rng.random()
         if not live and r < 0.7:
             r = 0.0
@@ -1078,7 +1153,12 @@ def gen_history(rng, shape, nops, flavour='plain'):
             kvs = []
             for a in reversed(anc(shape, c)):
                 for k in range(shape[a][1]):
-                    if rng.random() < 0.8:
+                    if is_alt(a, k):
+                        # alternateID column: always given, unique over the whole history
+                        kvs.append([a, k, alt_next[0]])
+                        alt_vals.append((a, k, alt_next[0]))
+                        alt_next[0] += 1
+                    elif rng.random() < 0.8:
                         kvs.append([a, k, rand_val(rng)])
             rng.shuffle(kvs)
             ops.append(['create', c, kvs])
@@ -1105,7 +1185,7 @@ def gen_history(rng, shape, nops, flavour='plain'):
         elif r < 0.58:
             e, i, m = pick_obj()
             chain = anc(shape, m) if m is not None else anc(shape, e)
-            attrs = [(a, k) for a in chain for k in range(shape[a][1])]
+            attrs = [(a, k) for a in chain for k in range(shape[a][1]) if not is_alt(a, k)]
             if not attrs:
                 ops.append(['get', e, i])
             else:
@@ -1114,7 +1194,7 @@ def gen_history(rng, shape, nops, flavour='plain'):
         elif r < 0.66:
             e, i, m = pick_obj()
             chain = anc(shape, m) if m is not None else anc(shape, e)
-            attrs = [(a, k) for a in chain for k in range(shape[a][1])]
+            attrs = [(a, k) for a in chain for k in range(shape[a][1]) if not is_alt(a, k)]
             rng.shuffle(attrs)
             attrs = attrs[:rng.randint(1, 4)]
             if not attrs:
@@ -1244,7 +1324,8 @@ def corpus_cases():
 
 
 def norm_shape(shape):
-    return [(None if p is None else int(p), int(k), int(h)) for p, k, h in shape]
+    """(parent, number of own columns, inheritable, the last own column is an alternateID column)"""
+    return [(None if x[0] is None else int(x[0]), int(x[1]), int(x[2]), int(x[3]) if len(x) > 3 else 0) for x in shape]
 
 
 # ----------------------------------------------------------------------------- minimisation / keys
@@ -1276,7 +1357,7 @@ def minimise(shape, ops, kind, cold=False):
 
 
 def case_key(kind, shape, ops, cold=False):
-    return 'C15:%s%s:%s:%s' % (kind, ':cold' if cold else '', ''.join('%s%d%d' % ('r' if p is None else p, k, h) for p, k, h in shape),
+    return 'C15:%s%s:%s:%s' % (kind, ':cold' if cold else '', ''.join('%s%d%d%s' % ('r' if x[0] is None else x[0], x[1], x[2], 'u' if len(x) > 3 and x[3] else '') for x in shape),
                              ';'.join(op_line(op) for op in ops))
 
 
@@ -1288,6 +1369,8 @@ def run(ctx):
     cases = [(norm_shape(s), o, c) for s, o, c in corpus_cases()]
     nshapes = ctx.budget(10, 60)
     shapes = [norm_shape(BASE_SHAPE)] + [norm_shape(gen_shape(rng)) for _ in range(nshapes)]
+    # hierarchies with alternateID columns: random histories only (the sweeps reuse column values)
+    alt_shapes = [norm_shape(ALT_SHAPE)] + [norm_shape(gen_shape(rng, alt_ok=True)) for _ in range(max(2, nshapes // 4))]
     cases += sweep_cases(shapes[0])
     cases += tx_sweep_cases(shapes[0])
     if ctx.tier == 'thorough' or ctx.deep:
@@ -1296,7 +1379,9 @@ def run(ctx):
     ncorpus = len(cases)
     ncases = ctx.budget(1200, 15000)
     for k in range(ncases):
-        shape = shapes[0] if rng.random() < 0.4 else rng.choice(shapes)
+        q = rng.random()
+        shape = shapes[0] if q < 0.3 else alt_shapes[0] if q < 0.42 else rng.choice(alt_shapes) if q < 0.5 \
+            else rng.choice(shapes)
         nops = rng.randint(3, 25)
         q = rng.random()
         flavour = 'plain' if q < 0.55 else 'refs' if q < 0.75 else 'two' if q < 0.92 else 'tx'
@@ -1326,6 +1411,8 @@ def run(ctx):
                          'impl': [a for a in impl[1:8]]},
                  kind=('corpus+sweep' if idx < ncorpus else ('base-hierarchy' if shape == shapes[0] else 'random-tree'))
                  + ('/cold-cache' if cold else '/warm-cache')
+                 + ('/small-batches' if any(o[0] == 'batch' for o in ops) else '')
+                 + ('/alternate-ids' if any(o[0] == 'byalt' for o in ops) else '')
                  + ('/two-databases' if any(o[0] == 'conn' for o in ops) else '')
                  + ('/transaction' if any(o[0] == 'begin' for o in ops) else '')
                  + ('/references' if any(o[0] == 'addref' for o in ops) else ''))
